@@ -191,6 +191,10 @@ func sigOfRegion(p *core.Prog, fn *ssa.Function, idParam ssa.Value, inRegion fun
 		}
 		for _, v := range vals {
 			v = core.StripConv(v)
+			// `d.prev += id; return d.prev`: the returned load stands for the value just stored
+			if sv := lastStoredInto(v); sv != nil {
+				v = core.StripConv(sv)
+			}
 			switch {
 			case v == idParam:
 				raws = append(raws, r)
@@ -250,12 +254,103 @@ func sigOfRegion(p *core.Prog, fn *ssa.Function, idParam ssa.Value, inRegion fun
 			}
 		}
 	}
+	if len(atoms) == 0 {
+		// no test dominates a delta return (the `previous + id` tail is shared by several arms): take the
+		// tests that separate the two kinds — one edge leads only to delta returns, the other only to raw ones
+		isDelta := map[*ssa.BasicBlock]bool{}
+		isRaw := map[*ssa.BasicBlock]bool{}
+		for _, r := range deltas {
+			isDelta[r.Block()] = true
+		}
+		for _, r := range raws {
+			isRaw[r.Block()] = true
+		}
+		reach := func(from *ssa.BasicBlock, avoid *ssa.BasicBlock) (d, r bool) {
+			seen := map[*ssa.BasicBlock]bool{avoid: true}
+			var walk func(b *ssa.BasicBlock)
+			walk = func(b *ssa.BasicBlock) {
+				if seen[b] {
+					return
+				}
+				seen[b] = true
+				if isDelta[b] {
+					d = true
+				}
+				if isRaw[b] {
+					r = true
+				}
+				for _, s := range b.Succs {
+					walk(s)
+				}
+			}
+			walk(from)
+			return
+		}
+		for _, b := range fn.Blocks {
+			iff := core.IfOf(b)
+			if iff == nil || (inRegion != nil && !inRegion(iff)) {
+				continue
+			}
+			d0, r0 := reach(b.Succs[0], b)
+			d1, r1 := reach(b.Succs[1], b)
+			switch {
+			case d0 && !r0 && r1 && !d1:
+				atomsOfCond(p, iff.Cond, 0, atoms)
+			case d1 && !r1 && r0 && !d0:
+				if cmp, ok := iff.Cond.(*ssa.BinOp); ok && cmp.Op == token.NEQ {
+					atomsFromNEQ = true
+					atomsOfCond(p, iff.Cond, 0, atoms)
+					atomsFromNEQ = false
+				} else {
+					atomsOfCond(p, iff.Cond, 0, atoms)
+				}
+			}
+		}
+	}
 	var as []string
 	for a := range atoms {
 		as = append(as, a)
 	}
 	sort.Strings(as)
 	return codecSig{kind: "group", atoms: as}
+}
+
+// lastStoredInto: v is a load of a struct field; the value of the nearest store into that field of the
+// same object that precedes the load in its block (or in the chain of single predecessors).
+func lastStoredInto(v ssa.Value) ssa.Value {
+	ld, ok := v.(*ssa.UnOp)
+	if !ok || ld.Op != token.MUL {
+		return nil
+	}
+	fa, ok := ld.X.(*ssa.FieldAddr)
+	if !ok {
+		return nil
+	}
+	b := ld.Block()
+	start := -1
+	for k, i := range b.Instrs {
+		if i == ssa.Instruction(ld) {
+			start = k
+		}
+	}
+	for hops := 0; hops < 3 && b != nil; hops++ {
+		for k := start - 1; k >= 0; k-- {
+			switch i := b.Instrs[k].(type) {
+			case *ssa.Store:
+				if fb, ok := i.Addr.(*ssa.FieldAddr); ok && fb.Field == fa.Field && (fb.X == fa.X || core.SameValue(fb.X, fa.X)) {
+					return i.Val
+				}
+			case *ssa.Call:
+				return nil // a call may write the field
+			}
+		}
+		if len(b.Preds) != 1 {
+			return nil
+		}
+		b = b.Preds[0]
+		start = len(b.Instrs)
+	}
+	return nil
 }
 
 type sorterImpl struct {
@@ -432,7 +527,20 @@ func findDecoders(p *core.Prog) []*decoderImpl {
 			if arm == nil {
 				d.sig = codecSig{kind: "unknown", note: fmt.Sprintf("no arm for the selected encoding type %d", selected)}
 			} else {
-				d.sig = sigOfRegion(p, fn, idParam, func(i ssa.Instruction) bool { return core.GuardedBy(arm, true, i) }, true)
+				// everything the selected arm can reach (its body and the code after the switch), not only what it dominates
+				inArm := map[*ssa.BasicBlock]bool{}
+				var mark func(b *ssa.BasicBlock)
+				mark = func(b *ssa.BasicBlock) {
+					if inArm[b] || b == arm.Block() {
+						return
+					}
+					inArm[b] = true
+					for _, s := range b.Succs {
+						mark(s)
+					}
+				}
+				mark(arm.Block().Succs[0])
+				d.sig = sigOfRegion(p, fn, idParam, func(i ssa.Instruction) bool { return inArm[i.Block()] }, true)
 			}
 		}
 		out = append(out, d)
